@@ -111,3 +111,49 @@ pub fn corpus_soc() -> Vec<(Vec<f64>, Vec<f64>, f64)> {
         (vec![5., 0., 0.], vec![-5., 3., 4.], 1.0),
     ]
 }
+
+// ---------------------------------------------------------------- PSD cone
+pub type Mat = Vec<Vec<f64>>;
+/// random symmetric matrix with entries in [-scale, scale]
+pub fn sym_matrix(rng: &mut Rng, n: usize, scale: f64) -> Mat {
+    let mut m = vec![vec![0.0; n]; n];
+    for c in 0..n {
+        for r in 0..=c {
+            let v = scale * (rng.unit() - 0.5) * 2.0;
+            m[r][c] = v;
+            m[c][r] = v;
+        }
+    }
+    m
+}
+/// symmetric positive definite: mag * (A Aᵀ / n + floor * I), eigenvalues roughly in [floor, 1+floor]·mag
+pub fn psd_matrix(rng: &mut Rng, n: usize, floor: f64, mag: f64) -> Mat {
+    let a: Mat = (0..n).map(|_| (0..n).map(|_| (rng.unit() - 0.5) * 2.0).collect()).collect();
+    let mut m = vec![vec![0.0; n]; n];
+    for c in 0..n {
+        for r in 0..=c {
+            let mut v = 0.0;
+            for k in 0..n { v += a[r][k] * a[c][k]; }
+            v = v / (n as f64) + if r == c { floor } else { 0.0 };
+            m[r][c] = v * mag;
+            m[c][r] = v * mag;
+        }
+    }
+    m
+}
+pub fn mat_scale(m: &Mat, k: f64) -> Mat { m.iter().map(|r| r.iter().map(|v| v * k).collect()).collect() }
+/// scaled vectorisation of the upper triangle, column by column, off-diagonals times sqrt(2)
+pub fn svec(m: &Mat) -> Vec<f64> {
+    let n = m.len();
+    let mut x = vec![];
+    for c in 0..n {
+        for r in 0..=c {
+            x.push(if r == c { m[r][c] } else { m[r][c] * std::f64::consts::SQRT_2 });
+        }
+    }
+    x
+}
+/// Coq literal: list of rows of dyadics
+pub fn cdymat(m: &Mat) -> String {
+    format!("[{}]", m.iter().map(|r| crate::common::cdylist(r)).collect::<Vec<_>>().join("; "))
+}
